@@ -20,10 +20,22 @@ MODES = [("mmd", True, docs.STD), ("mmd", False, E["NOTES"] | E["CRITIC"]), ("co
 def canon(b):
     s = (b or b"").decode("utf-8", errors="replace").replace("\r", "")
     out = []; i = 0
+    def flat(x):
+        x = re.sub(r"\n\t*", "", x)
+        # white space at the edges of a table cell has no meaning in HTML: the cell's content is compared without it
+        return re.sub(r"(<t[hd](?: [^>]*)?>)\s*(.*?)\s*(</t[hd]>)", r"\1\2\3", x)
     for m in re.finditer(r"<pre>.*?</pre>", s, re.S):
-        out.append(s[i:m.start()].replace("\n", "")); out.append(m.group(0)); i = m.end()
-    out.append(s[i:].replace("\n", ""))
+        out.append(flat(s[i:m.start()])); out.append(m.group(0)); i = m.end()
+    out.append(flat(s[i:]))
     return "".join(out)
+
+
+def has_inl(v, kinds):
+    if isinstance(v, dict):
+        return (v.get("k") in kinds and "x" in v) or any(has_inl(x, kinds) for x in v.values())
+    if isinstance(v, list):
+        return any(has_inl(x, kinds) for x in v)
+    return False
 
 
 def has_kind(d, kinds):
@@ -41,10 +53,11 @@ def run(tier, seed):
                         "adjacent blocks that merge by the syntax rules (list+list, list+indented, quote+quote, paragraph + '---') are excluded by the generator (Unambiguous)"]
     gs = tlc.run("Html", GEN % ("FALSE", 0, "single"), workers=NCPU, timeout=900)
     gp = tlc.run("Html", GEN % ("FALSE", 0, "pair"), workers=NCPU, timeout=900)
+    gn = tlc.run("Html", GEN % ("FALSE", 0, "notes"), workers=NCPU, timeout=900)
     gr = tlc.run("Html", GEN % ("TRUE", 5, "random"), workers=4, simulate=(100 if tier == "quick" else 1500), depth=7, seed=seed, timeout=900)
-    if gs.violated or gp.violated or gr.violated: raise FrameworkError("Html: CompLaw violated on the reference itself")
+    if gs.violated or gp.violated or gr.violated or gn.violated: raise FrameworkError("Html: CompLaw violated on the reference itself")
     chk.cov["states"] = gs.distinct + gp.distinct; chk.cov["transitions"] = max(gs.generated + gp.generated, 1)
-    cases = uniq(gs.printed + gp.printed + gr.printed, key=lambda c: c["src"])
+    cases = uniq(gs.printed + gp.printed + gn.printed + gr.printed, key=lambda c: c["src"])
     exe = build.build_harness("asan")
     segs = []; per = 12; meta = []
     for i in range(0, len(cases), per):
@@ -64,7 +77,7 @@ def run(tier, seed):
             pass
     blocksrc = {}
     for c in gs.printed:
-        if len(c["d"]) == 1 and c["sp"]["us"] is False and c["sp"]["lead"] == 0 and c["sp"]["closed"] is False and c["sp"]["ul"] == 5 and c["sp"]["fence"] == 3 and c["sp"]["hr"] == 1 and c["sp"]["bullet"] == "*":
+        if len(c["d"]) == 1 and c["sp"]["us"] is False and c["sp"]["lead"] == 0 and c["sp"]["closed"] is False and c["sp"]["ul"] == 5 and c["sp"]["fence"] == 3 and c["sp"]["hr"] == 1 and c["sp"]["bullet"] == "*" and c["sp"]["pipes"] is True:
             blocksrc[json.dumps(c["d"][0], sort_keys=True)] = c["src"]
     ib = sorted({json.dumps(b, sort_keys=True) for c in indep for b in c["d"]})
     ib = [k for k in ib if k in blocksrc]
@@ -93,7 +106,7 @@ def run(tier, seed):
             c = cases[si * per + int(ev["src"][1:])]
             crlf = ev["src"].startswith("r")
             mode, smart = ("mmd", True) if crlf else [(m, s2) for (m, s2, x) in MODES if x == ev["ext"]][0]
-            if mode == "compat" and has_kind(c["d"], ("fenced",)): continue
+            if mode == "compat" and (has_kind(c["d"], ("fenced", "table", "deflist")) or has_inl(c["d"], ("math", "fn"))): continue
             n += 1
             trace.append(dict(e="html", null=ev["null"], d=c["d"], sp=c["sp"], src=c["src"], mode=mode, smart=smart, crlf=crlf, out=canon(project.lat1(ev.get("out")))))
     for si, (seg, r) in enumerate(zip(csegs, res[len(segs):])):
@@ -114,7 +127,7 @@ def run(tier, seed):
     for seg, idx in rejected:
         ev = seg[idx]
         if ev["e"] == "html":
-            kinds = sorted({b["k"] for b in ev["d"]} | {b2["k"] for b in ev["d"] for b2 in b["d"]}); ik = sorted({i["k"] + ("/" + i["a"] if i["k"] in ("smart", "esc", "ent") else "") for b in ev["d"] for i in b["il"]})
+            kinds = sorted({b["k"] for b in ev["d"]} | {b2["k"] for b in ev["d"] for b2 in b["d"]}); ik = sorted({i["k"] + ("/" + i["a"] if i["k"] in ("smart", "esc", "ent") else "") for b in ev["d"] for i in b["il"]} | {k for k in ("math", "fn", "ref") if has_inl(ev["d"], (k,))})
             causes = []
             if any(b["k"] == "setext" for b in ev["d"]) and ev["sp"]["ul"] == 1: causes.append("setext-underline-of-one-character")
             def q_ind(d): return any((b["k"] == "quote" and any(c["k"] == "indented" for c in b["d"])) or q_ind(b["d"]) for b in d)
